@@ -579,11 +579,20 @@ class ClassModificationArgument(Node):
         )
 
     def __deepcopy__(self, memo):
-        _scope, _deepcp = self.scope, self.__deepcopy__
+        # The scope is shared, not copied. Shadow this hook on the instance so
+        # that the default deepcopy machinery is used, then remove the shadow
+        # from both objects: a copy whose hook stayed bound to the argument it
+        # was copied from would, when both are reached by one deepcopy, be
+        # replaced by the copy of that other argument (shared through the memo).
+        _scope = self.scope
         self.scope, self.__deepcopy__ = None, None
-        new = copy.deepcopy(self, memo)
-        self.scope, self.__deepcopy__ = _scope, _deepcp
-        new.scope, new.__deepcopy__ = _scope, _deepcp
+        try:
+            new = copy.deepcopy(self, memo)
+        finally:
+            self.scope = _scope
+            del self.__deepcopy__
+        new.scope = _scope
+        del new.__deepcopy__
         return new
 
 
